@@ -17,7 +17,8 @@ use super::{
     query::{verif_c16::Live, QueryAction},
     record::{ContentProvider, Key as RecordKey, Record},
     types::{ConnectionType, KademliaPeer},
-    ConfigBuilder, Kademlia, PeerAction, QueryId,
+    Config, ConfigBuilder, IncomingRecordValidationMode, Kademlia, PeerAction, QueryId,
+    RoutingTableUpdateMode,
 };
 use crate::{
     addresses::PublicAddresses,
@@ -37,7 +38,10 @@ use crate::{
         Endpoint, KEEP_ALIVE_TIMEOUT,
     },
     types::{protocol::ProtocolName, ConnectionId, SubstreamId},
-    verif::{peer, peer_index, VerifBox},
+    verif::{
+        io::{frame, pipe, unframe, PipeCtl},
+        peer, peer_index, VerifBox,
+    },
     BandwidthSink, PeerId,
 };
 
@@ -238,10 +242,115 @@ struct Inner {
     rx_log_rx: UnboundedReceiver<(usize, String)>,
     /// Effects collected during the current operation.
     effects: Vec<String>,
+    resp_effects: Vec<String>,
     rx_effects: Vec<(usize, String)>,
     /// All terminal events so far, `(query, kind)`.
     ledger: Vec<(usize, String)>,
     started: Vec<(usize, String)>,
+    /// Inbound substreams (requests of remote peers), by number.
+    inbounds: Vec<Inbound>,
+    /// Keys this node announced itself for and has not stopped providing.
+    providing: Vec<u8>,
+}
+
+/// Remote end of an inbound substream.
+struct Inbound {
+    ctl: PipeCtl,
+    received: Vec<u8>,
+    frames: usize,
+}
+
+/// Configuration of the coordinator under test (`net` options).
+#[derive(Default)]
+struct Opts {
+    replication: Option<usize>,
+    manual_validation: bool,
+    manual_update: bool,
+    ttl0: bool,
+    refresh: Option<u64>,
+    maxmsg: Option<usize>,
+    maxrec: Option<usize>,
+    maxsize: Option<usize>,
+    provttl0: bool,
+    known: Vec<u64>,
+    proto: bool,
+    default: bool,
+}
+
+impl Opts {
+    fn parse(args: &[&str]) -> Option<Self> {
+        let mut o = Opts::default();
+        for arg in args {
+            let (k, v) = arg.split_once('=')?;
+            match (k, v) {
+                ("repl", v) => o.replication = Some(v.parse::<usize>().ok()?),
+                ("valid", "manual") => o.manual_validation = true,
+                ("valid", "auto") => {}
+                ("update", "manual") => o.manual_update = true,
+                ("update", "auto") => {}
+                ("ttl", "0") => o.ttl0 = true,
+                ("provttl", "0") => o.provttl0 = true,
+                ("refresh", v) => o.refresh = Some(v.parse::<u64>().ok().filter(|r| (1..=100_000).contains(r))?),
+                ("maxmsg", v) => o.maxmsg = Some(v.parse::<usize>().ok().filter(|m| *m >= 256)?),
+                ("maxrec", v) => o.maxrec = Some(v.parse::<usize>().ok()?),
+                ("maxsize", v) => o.maxsize = Some(v.parse::<usize>().ok()?),
+                ("known", v) => o.known = Inner::peers_arg(v)?.into_iter().filter(|p| *p >= 1).collect(),
+                ("proto", "2") => o.proto = true,
+                ("default", "1") => o.default = true,
+                _ => return None,
+            }
+        }
+        if o.default && args.len() != 1 {
+            return None;
+        }
+        Some(o)
+    }
+
+    fn build(&self, kinds: &[char]) -> (Config, KademliaHandle) {
+        if self.default {
+            return Config::default();
+        }
+        let mut b = ConfigBuilder::new();
+        if let Some(r) = self.replication {
+            b = b.with_replication_factor(r);
+        }
+        if self.manual_validation {
+            b = b.with_incoming_records_validation_mode(IncomingRecordValidationMode::Manual);
+        }
+        if self.manual_update {
+            b = b.with_routing_table_update_mode(RoutingTableUpdateMode::Manual);
+        }
+        if self.ttl0 {
+            b = b.with_record_ttl(Duration::ZERO);
+        }
+        if self.provttl0 {
+            b = b.with_provider_record_ttl(Duration::ZERO);
+        }
+        if let Some(r) = self.refresh {
+            b = b.with_provider_refresh_interval(Duration::from_secs(r));
+        }
+        if let Some(m) = self.maxmsg {
+            b = b.with_max_message_size(m);
+        }
+        if let Some(m) = self.maxrec {
+            b = b.with_max_records(m);
+        }
+        if let Some(m) = self.maxsize {
+            b = b.with_max_record_size(m);
+        }
+        if !self.known.is_empty() {
+            b = b.with_known_peers(
+                self.known
+                    .iter()
+                    .map(|p| (peer(*p), address(*p, kinds.get(*p as usize - 1).copied().unwrap_or('n'))))
+                    .collect(),
+            );
+        }
+        if self.proto {
+            b = b.with_protocol_names(vec![ProtocolName::from("/verif/kad/a"), ProtocolName::from("/verif/kad/b")]);
+        }
+        b.build()
+    }
 }
 
 fn address(i: u64, kind: char) -> Vec<Multiaddr> {
@@ -322,8 +431,35 @@ async fn remote_task(
     }
 }
 
+fn sorted_peers(peers: &[KademliaPeer]) -> String {
+    let mut idx: Vec<u64> = peers.iter().map(|p| peer_index(&p.peer).unwrap_or(99)).collect();
+    idx.sort();
+    idx.iter().map(|i| i.to_string()).collect::<Vec<_>>().join(",")
+}
+
+/// Canonical form of a frame the coordinator wrote to an inbound substream.
+fn response_str(frame: &[u8]) -> String {
+    match KademliaMessage::from_bytes(BytesMut::from(frame), 20) {
+        Some(KademliaMessage::FindNode { peers, .. }) => format!("FIND_NODE:{}", sorted_peers(&peers)),
+        Some(KademliaMessage::PutValue { record }) => format!(
+            "PUT_VALUE:{}:{}",
+            record.key.to_vec().first().copied().unwrap_or(0),
+            record.value.len()
+        ),
+        Some(KademliaMessage::GetRecord { record, peers, .. }) => format!(
+            "GET_VALUE:rec={}:{}",
+            record.map_or_else(|| "-".to_string(), |r| r.value.len().to_string()),
+            sorted_peers(&peers)
+        ),
+        Some(KademliaMessage::AddProvider { .. }) => "ADD_PROVIDER".to_string(),
+        Some(KademliaMessage::GetProviders { providers, peers, .. }) =>
+            format!("GET_PROVIDERS:prov={}:{}", sorted_peers(&providers), sorted_peers(&peers)),
+        None => "UNDECODABLE".to_string(),
+    }
+}
+
 impl Inner {
-    async fn new(kinds: Vec<char>, replication: usize) -> Self {
+    async fn new(kinds: Vec<char>, opts: &Opts) -> Self {
         let local = peer(0);
         let (mgr_tx, mgr_rx) = channel(4096);
         let mgr_peers = mgr::new_peers();
@@ -340,7 +476,7 @@ impl Inner {
             let i = i as u64 + 1;
             mgr_handle.add_known_address(&peer(i), address(i, *kind).into_iter());
         }
-        let (config, handle) = ConfigBuilder::new().with_replication_factor(replication).build();
+        let (config, handle) = opts.build(&kinds);
         let protocol = config.protocol_names[0].clone();
         let codec = config.codec.clone();
         let (service, service_tx) = TransportService::new(
@@ -401,9 +537,12 @@ impl Inner {
             rx_log_tx,
             rx_log_rx,
             effects: Vec::new(),
+            resp_effects: Vec::new(),
             rx_effects: Vec::new(),
             ledger: Vec::new(),
             started: Vec::new(),
+            inbounds: Vec::new(),
+            providing: Vec::new(),
         }
     }
 
@@ -428,6 +567,18 @@ impl Inner {
             }
             self.rx_effects.push((csid, format!("rx:{csid}:{kind}")));
         }
+        for (k, inbound) in self.inbounds.iter_mut().enumerate() {
+            let bytes = inbound.ctl.remote_read_all();
+            if bytes.is_empty() {
+                continue;
+            }
+            inbound.received.extend_from_slice(&bytes);
+            let (frames, _) = unframe(&inbound.received);
+            for f in frames.iter().skip(inbound.frames) {
+                self.resp_effects.push(format!("resp:{k}:{}", response_str(f)));
+            }
+            inbound.frames = frames.len();
+        }
         while let Some(Some(event)) = self.handle.next().now_or_never() {
             let terminal = match &event {
                 KademliaEvent::FindNodeSuccess { query_id, .. } => Some((query_id.0, "FindNodeSuccess")),
@@ -442,7 +593,29 @@ impl Inner {
                     self.effects.push(format!("ev:partial:{}", query_id.0));
                     None
                 }
-                _ => None,
+                KademliaEvent::IncomingRecord { record } => {
+                    self.effects.push(format!(
+                        "inc:record:{}:{}",
+                        record.key.to_vec().first().copied().unwrap_or(0),
+                        record.value.len()
+                    ));
+                    None
+                }
+                KademliaEvent::IncomingProvider {
+                    provided_key,
+                    provider,
+                } => {
+                    self.effects.push(format!(
+                        "inc:provider:{}:{}",
+                        provided_key.to_vec().first().copied().unwrap_or(0),
+                        pidx(&provider.peer)
+                    ));
+                    None
+                }
+                KademliaEvent::RoutingTableUpdate { peers } => {
+                    self.effects.push(format!("inc:rtu:{}", plist(peers.iter().copied())));
+                    None
+                }
             };
             if let Some((q, kind)) = terminal {
                 self.effects.push(format!("ev:{kind}:{q}"));
@@ -504,6 +677,7 @@ impl Inner {
         tokens.extend(tail);
         self.rx_effects.sort();
         tokens.extend(self.rx_effects.drain(..).map(|(_, t)| t));
+        tokens.append(&mut self.resp_effects);
         tokens.append(&mut self.effects);
         let state = SNAP.with(|s| self.format_state(&s.borrow()));
         format!("{} # {}", tokens.join(" "), state)
@@ -808,6 +982,87 @@ impl Inner {
         Some(csid)
     }
 
+    /// Bytes a remote peer sends on an inbound substream; `Some(None)` = nothing (silent), the
+    /// outer `None` = unparseable.
+    fn request_bytes(p: u64, kind: &str, rest: &[&str]) -> Option<Option<Vec<u8>>> {
+        let key = |s: &&str| s.parse::<u8>().ok().map(|k| RecordKey::from(vec![k]));
+        let bytes = match (kind, rest) {
+            ("find_node", [target]) => {
+                let target = target.parse::<u64>().ok().filter(|t| *t <= MAX_PEER)?;
+                KademliaMessage::find_node(peer(target).to_bytes()).to_vec()
+            }
+            ("get_value", [k]) => KademliaMessage::get_record(key(k)?).to_vec(),
+            // `GET_VALUE` without key
+            ("get_value", []) => KademliaMessage::get_record(RecordKey::from(Vec::new())).to_vec(),
+            ("put_value", [k, rest @ ..]) => {
+                let size = match rest {
+                    [] => 1usize,
+                    [s] => s.strip_prefix("size=")?.parse::<usize>().ok().filter(|s| *s <= 100_000)?,
+                    _ => return None,
+                };
+                KademliaMessage::put_value(Record::new(key(k)?, vec![9u8; size])).to_vec()
+            }
+            ("add_provider", [k, rest @ ..]) => {
+                let provider = match rest {
+                    [] => p,
+                    [s] => s.strip_prefix("as=")?.parse::<u64>().ok().filter(|q| *q <= MAX_PEER)?,
+                    _ => return None,
+                };
+                KademliaMessage::add_provider(
+                    key(k)?,
+                    ContentProvider {
+                        peer: peer(provider),
+                        addresses: address(provider, 'g'),
+                    },
+                )
+                .to_vec()
+            }
+            ("get_providers", [k]) => KademliaMessage::get_providers_request(key(k)?).to_vec(),
+            ("get_providers", []) => KademliaMessage::get_providers_request(RecordKey::from(Vec::new())).to_vec(),
+            ("garbage", []) => vec![0xff, 0xff, 0xff, 0xff],
+            ("silent", []) | ("eof", []) => return Some(None),
+            _ => return None,
+        };
+        Some(Some(bytes))
+    }
+
+    /// A remote peer opens a substream to this node and (unless silent) sends one request.
+    async fn inbound(&mut self, p: u64, request: Option<Vec<u8>>, eof: bool) -> Option<usize> {
+        let conn = self.conns.get(&p)?;
+        let tx = conn._tx.clone()?;
+        let (end, ctl) = pipe(1 << 20);
+        match &request {
+            Some(bytes) => ctl.remote_write(&frame(bytes)),
+            None if eof => ctl.remote_close(),
+            None => {}
+        }
+        let k = self.inbounds.len();
+        let substream = Substream::new_verif(
+            peer(p),
+            SubstreamId::from(1_000_000 + k),
+            Box::new(end),
+            self.codec.clone(),
+        );
+        let _ = self
+            .service_tx
+            .send(InnerTransportEvent::SubstreamOpened {
+                peer: peer(p),
+                protocol: self.protocol.clone(),
+                fallback: None,
+                direction: Direction::Inbound,
+                connection_id: conn.id,
+                substream,
+                opening_permit: Permit::new(tx),
+            })
+            .await;
+        self.inbounds.push(Inbound {
+            ctl,
+            received: Vec::new(),
+            frames: 0,
+        });
+        Some(k)
+    }
+
     fn start(&mut self, kind: &str, query: QueryId) {
         self.started.push((query.0, kind.to_string()));
     }
@@ -816,43 +1071,68 @@ impl Inner {
     async fn primitive(&mut self, t: &[&str]) -> Option<String> {
         let num = |s: &str| s.trim_start_matches('#').parse::<usize>().ok();
         let key = |s: &str| s.parse::<u8>().ok().map(|k| RecordKey::from(vec![k]));
+        // `<op>_a`: the awaiting variant of a handle method instead of `try_<op>`
+        let stripped = t.first().and_then(|op| op.strip_suffix("_a"));
+        let awaiting = stripped.is_some();
+        let mut renamed: Vec<&str> = t.to_vec();
+        if let Some(op) = stripped {
+            if !["add_known_peer", "find_node", "put_record", "put_record_to", "get_record", "store_record"]
+                .contains(&op)
+            {
+                return None;
+            }
+            renamed[0] = op;
+        }
+        let t = renamed.as_slice();
         let head = match t {
             ["add_known_peer", p] => {
                 let p = p.parse::<u64>().ok().filter(|p| (1..=MAX_PEER).contains(p))?;
                 let kind = self.kinds.get(p as usize - 1).copied().unwrap_or('n');
-                let _ = self.handle.try_add_known_peer(peer(p), address(p, kind));
+                if awaiting {
+                    self.handle.add_known_peer(peer(p), address(p, kind)).now_or_never()?;
+                } else {
+                    let _ = self.handle.try_add_known_peer(peer(p), address(p, kind));
+                }
                 "ok".to_string()
             }
             ["find_node", target] => {
                 let target = target.parse::<u64>().ok()?;
-                let q = self.handle.try_find_node(peer(target)).ok()?;
+                let q = if awaiting {
+                    self.handle.find_node(peer(target)).now_or_never()?
+                } else {
+                    self.handle.try_find_node(peer(target)).ok()?
+                };
                 self.start("find_node", q);
                 format!("q={}", q.0)
             }
             ["put_record", k, rest @ ..] => {
-                let q = self
-                    .handle
-                    .try_put_record(Record::new(key(k)?, vec![7u8]), Self::quorum(rest.first())?)
-                    .ok()?;
+                let (record, quorum) = (Record::new(key(k)?, vec![7u8]), Self::quorum(rest.first())?);
+                let q = if awaiting {
+                    self.handle.put_record(record, quorum).now_or_never()?
+                } else {
+                    self.handle.try_put_record(record, quorum).ok()?
+                };
                 self.start("put_record", q);
                 format!("q={}", q.0)
             }
             ["put_record_to", k, peers, rest @ ..] => {
                 let peers = Self::peers_arg(peers)?.into_iter().map(peer).collect();
-                let q = self
-                    .handle
-                    .try_put_record_to_peers(
-                        Record::new(key(k)?, vec![7u8]),
-                        peers,
-                        false,
-                        Self::quorum(rest.first())?,
-                    )
-                    .ok()?;
+                let update_local = rest.get(1) == Some(&"local");
+                let (record, quorum) = (Record::new(key(k)?, vec![7u8]), Self::quorum(rest.first())?);
+                let q = if awaiting {
+                    self.handle.put_record_to_peers(record, peers, update_local, quorum).now_or_never()?
+                } else {
+                    self.handle.try_put_record_to_peers(record, peers, update_local, quorum).ok()?
+                };
                 self.start("put_record_to", q);
                 format!("q={}", q.0)
             }
             ["get_record", k, rest @ ..] => {
-                let q = self.handle.try_get_record(key(k)?, Self::quorum(rest.first())?).ok()?;
+                let q = if awaiting {
+                    self.handle.get_record(key(k)?, Self::quorum(rest.first())?).now_or_never()?
+                } else {
+                    self.handle.try_get_record(key(k)?, Self::quorum(rest.first())?).ok()?
+                };
                 self.start("get_record", q);
                 format!("q={}", q.0)
             }
@@ -862,7 +1142,39 @@ impl Inner {
                     .start_providing(key(k)?, Self::quorum(rest.first())?)
                     .now_or_never()?;
                 self.start("start_providing", q);
+                let k = k.parse::<u8>().ok()?;
+                if !self.providing.contains(&k) {
+                    self.providing.push(k);
+                }
                 format!("q={}", q.0)
+            }
+            ["stop_providing", k] => {
+                self.handle.stop_providing(key(k)?).now_or_never()?;
+                let k = k.parse::<u8>().ok()?;
+                self.providing.retain(|x| *x != k);
+                "ok".to_string()
+            }
+            ["store_record", k, rest @ ..] => {
+                let size = match rest {
+                    [] => 1usize,
+                    [s] => s.strip_prefix("size=")?.parse::<usize>().ok().filter(|s| *s <= 100_000)?,
+                    _ => return None,
+                };
+                let record = Record::new(key(k)?, vec![9u8; size]);
+                if awaiting {
+                    self.handle.store_record(record).now_or_never()?;
+                } else {
+                    self.handle.try_store_record(record).ok()?;
+                }
+                "ok".to_string()
+            }
+            ["inbound", p, kind, rest @ ..] => {
+                let p = p.parse::<u64>().ok().filter(|p| (1..=MAX_PEER).contains(p))?;
+                let request = Self::request_bytes(p, kind, rest)?;
+                match self.inbound(p, request, *kind == "eof").await {
+                    Some(k) => format!("in={k}"),
+                    None => "noop".into(),
+                }
             }
             ["get_providers", k] => {
                 let q = self.handle.get_providers(key(k)?).now_or_never()?;
@@ -948,6 +1260,14 @@ impl Inner {
     /// nothing is outstanding.
     async fn settle(&mut self) -> String {
         let mut parts = Vec::new();
+        // no further republishing of local providers: the refresh timers become no-ops
+        for k in self.providing.clone() {
+            let line = format!("stop_providing {k}");
+            let t: Vec<&str> = line.split_whitespace().collect();
+            if let Some(out) = self.primitive(&t).await {
+                parts.push(format!("{line} -> {out}"));
+            }
+        }
         for _ in 0..12 {
             let mut progressed = false;
             let waited: Vec<PeerId> = SNAP.with(|s| s.borrow().dials.iter().map(|(p, _)| *p).collect());
@@ -1005,6 +1325,7 @@ impl Inner {
 pub struct KadBox {
     runtime: tokio::runtime::Runtime,
     inner: Option<Inner>,
+    exec: Option<exec::ExecBox>,
 }
 
 impl KadBox {
@@ -1019,12 +1340,16 @@ impl KadBox {
                 .build()
                 .expect("runtime"),
             inner: None,
+            exec: None,
         }
     }
 }
 
 #[path = "c16_s2.rs"]
 mod s2;
+
+#[path = "c16_exec.rs"]
+mod exec;
 
 impl VerifBox for KadBox {
     fn step(&mut self, line: &str) -> String {
@@ -1033,14 +1358,23 @@ impl VerifBox for KadBox {
             // real nodes on loopback, own runtime with the real clock
             return s2::run(rest);
         }
+        if let ["x", rest @ ..] = t.as_slice() {
+            // the real `QueryExecutor` on scripted substreams (paused clock of this box)
+            if self.inner.is_some() {
+                return "bad-op".into();
+            }
+            let exec = self.exec.get_or_insert_with(exec::ExecBox::new);
+            return self.runtime.block_on(exec.step(rest)).unwrap_or_else(|| "bad-op".into());
+        }
         if let ["net", kinds @ ..] = t.as_slice() {
-            let replication = kinds
-                .iter()
-                .find_map(|k| k.strip_prefix("repl=").and_then(|r| r.parse::<usize>().ok()))
-                .unwrap_or(20);
+            let options: Vec<&str> = kinds.iter().filter(|k| k.contains('=')).copied().collect();
+            let Some(opts) = Opts::parse(&options) else {
+                return "bad-op".into();
+            };
             let kinds: Vec<char> =
                 kinds.iter().filter(|k| !k.contains('=')).filter_map(|k| k.chars().next()).collect();
             if self.inner.is_some()
+                || self.exec.is_some()
                 || kinds.is_empty()
                 || kinds.len() as u64 > MAX_PEER
                 || kinds.iter().any(|k| !"gbn".contains(*k))
@@ -1048,7 +1382,7 @@ impl VerifBox for KadBox {
                 return "bad-op".into();
             }
             let inner = self.runtime.block_on(async {
-                let mut inner = Inner::new(kinds, replication).await;
+                let mut inner = Inner::new(kinds, &opts).await;
                 inner.quiesce().await;
                 inner
             });
